@@ -503,7 +503,7 @@ def jobs_for(prop, tier):
     if prop in ("C01", "C03", "C16"):
         j = j + unit_space(tier, prop.lower())
     # key / value types other than the search engines' own, RandomState, build() (E1d)
-    if prop in ("C01", "C03", "C05", "C07", "C08", "C10", "C16"):
+    if prop in ("C01", "C03", "C05", "C06", "C07", "C08", "C10", "C16"):
         j = j + [{"id": "scalex-types", "argv": ["scalex", "types"]}]
     # explored schedules of the real sync cache (E2); the postlude of every schedule
     # checks structure, counters, drops, final state and the sequential refill
